@@ -14,9 +14,11 @@ whatever the implementation accepted.
 """
 from __future__ import annotations
 
+import atexit
 import itertools
 import os
 import random
+import shutil
 import signal
 import tempfile
 from typing import Any, Dict, Iterator, List, Optional, Tuple
@@ -627,6 +629,7 @@ class C02(Property):
                 else:
                     if self._tmp is None:
                         self._tmp = tempfile.mkdtemp(prefix="asv_c02_")
+                        atexit.register(shutil.rmtree, self._tmp, ignore_errors=True)
                     paths = []
                     for i, text in enumerate(case["files"]):
                         path = os.path.join(self._tmp, f"f{i}.txt")
